@@ -107,6 +107,45 @@ func (e *nilEngine) nonNil(v ssa.Value, at ssa.Instruction, depth int) (bool, st
 			}
 			return false, "map entry of unknown nil-ness (or used outside the found branch)"
 		}
+		if c, ok := x.Tuple.(*ssa.Call); ok && x.Index == 0 {
+			// (value, ok) results of a package function: non-nil on the ok edge when
+			// the function returns ok == true only together with a non-nil value
+			if f := c.Call.StaticCallee(); f != nil && w.inPkg(f) && len(f.Blocks) > 0 && f.Signature.Results().Len() == 2 {
+				if bt, isB := f.Signature.Results().At(1).Type().Underlying().(*types.Basic); isB && bt.Kind() == types.Bool {
+					var okEx *ssa.Extract
+					for _, u := range uses(c) {
+						if ex, isE := u.(*ssa.Extract); isE && ex.Index == 1 {
+							okEx = ex
+						}
+					}
+					onOK := okEx != nil && at != nil && trueEdgeDominates(okEx, at.Block())
+					if onOK {
+						paired := true
+						for _, b := range f.Blocks {
+							ret, isR := normalReturn(b)
+							if !isR || len(ret.Results) != 2 {
+								continue
+							}
+							if k, isC := strip(ret.Results[1]).(*ssa.Const); isC && k.Value != nil && k.Value.ExactString() == "false" {
+								continue
+							}
+							// ok is literally "the value is not nil"
+							if bo, isB := strip(ret.Results[1]).(*ssa.BinOp); isB && bo.Op == token.NEQ {
+								if (isNilConst(strip(bo.Y)) && sameValue(bo.X, ret.Results[0])) || (isNilConst(strip(bo.X)) && sameValue(bo.Y, ret.Results[0])) {
+									continue
+								}
+							}
+							if okv, _ := e.nonNil(retVal(ret, 0), ret, depth+1); !okv {
+								paired = false
+							}
+						}
+						if paired {
+							return true, "result of " + f.Name() + " on its ok edge (ok is true only together with a non-nil value)"
+						}
+					}
+				}
+			}
+		}
 		if c, ok := x.Tuple.(*ssa.Call); ok {
 			// (value, error) results: non-nil value when the error was tested nil and the callee pairs them
 			var errEx *ssa.Extract
@@ -377,7 +416,13 @@ func (e *nilEngine) callNonNil(c *ssa.Call, at ssa.Instruction, depth int) (bool
 		if f.Pkg == nil || f.Pkg.Pkg != w.Types && !w.inPkg(f) {
 			return e.stdlibNonNil(f)
 		}
-		return e.returnsNonNil(f, c, depth)
+		ok, why := e.returnsNonNil(f, c, depth)
+		if !ok && at != nil {
+			if ok2, why2 := e.stickyErrorGuard(f, c, at, depth); ok2 {
+				return true, why2
+			}
+		}
+		return ok, why
 	}
 	if _, ok := cc.Value.(*ssa.Builtin); ok {
 		return true, "builtin result"
@@ -1018,6 +1063,8 @@ func (e *nilEngine) elemsNonNil(v ssa.Value, at ssa.Instruction, depth int) (boo
 		return true, "all incoming slices have non-nil elements"
 	case *ssa.Slice:
 		return e.elemsNonNil(x.X, at, depth+1)
+	case *ssa.ChangeType:
+		return e.elemsNonNil(x.X, at, depth+1)
 	case *ssa.MakeSlice:
 		// make(T, 0, n): no element is accessible until it has been appended
 		if k, ok := constInt(x.Len); ok && k == 0 {
@@ -1063,6 +1110,31 @@ func (e *nilEngine) elemsNonNil(v ssa.Value, at ssa.Instruction, depth int) (boo
 			args := ed.Site.Common().Args
 			if idx >= len(args) {
 				return false, "argument mismatch"
+			}
+			// the call made by a bound-method wrapper (a method value x.m): what the
+			// method value was made of
+			if fv, isFV := strip(args[idx]).(*ssa.FreeVar); isFV && strings.HasPrefix(fv.Parent().Synthetic, "bound method wrapper") {
+				found := false
+				for _, f2 := range w.AllFuncs {
+					var bad string
+					eachInstr(f2, false, func(_ *ssa.Function, in ssa.Instruction) {
+						mc, ok := in.(*ssa.MakeClosure)
+						if !ok || mc.Fn != ssa.Value(fv.Parent()) || len(mc.Bindings) == 0 {
+							return
+						}
+						found = true
+						if ok, why := e.elemsNonNil(mc.Bindings[0], in, depth+1); !ok {
+							bad = why
+						}
+					})
+					if bad != "" {
+						return false, bad
+					}
+				}
+				if !found {
+					return false, "method value of unknown origin"
+				}
+				continue
 			}
 			if ok, why := e.elemsNonNil(args[idx], ed.Site, depth+1); !ok {
 				return false, why
@@ -1276,4 +1348,188 @@ func (w *World) structFieldOrigins(T *types.Named, idx int) (vals []ssa.Value, z
 		}
 	}
 	return vals, zeroPossible
+}
+
+// trueEdgeDominates: blk is dominated by the edge on which the boolean v is
+// true (through any number of negations of v in the branch condition).
+func trueEdgeDominates(v ssa.Value, blk *ssa.BasicBlock) bool {
+	for _, uu := range uses(v) {
+		neg := false
+		cur := v
+		for {
+			if un, ok := uu.(*ssa.UnOp); ok && un.Op == token.NOT {
+				neg = !neg
+				cur = un
+				us := uses(un)
+				if len(us) != 1 {
+					break
+				}
+				uu = us[0]
+				continue
+			}
+			break
+		}
+		ifi, ok := uu.(*ssa.If)
+		if !ok || ifi.Cond != cur {
+			continue
+		}
+		t := ifi.Block().Succs[0]
+		if neg {
+			t = ifi.Block().Succs[1]
+		}
+		if len(t.Preds) == 1 && (t == blk || t.Dominates(blk)) {
+			return true
+		}
+	}
+	return false
+}
+
+// stickyErrorGuard: the result of a method that records its failure in an error
+// field of its receiver instead of returning it (the arguments of a call built
+// one after the other, the first error kept). The result is non-nil at `at`
+// when
+//   - the field is sticky: every assignment to it in the package stores a value
+//     that is non-nil by construction, so it never goes back to nil;
+//   - every return of the method that can yield nil happens with the field
+//     non-nil (under a test of it, or after such an assignment);
+//   - between the call and `at` the caller has tested that very field of that
+//     very receiver and `at` is on the nil side.
+func (e *nilEngine) stickyErrorGuard(f *ssa.Function, c *ssa.Call, at ssa.Instruction, depth int) (bool, string) {
+	w := e.w
+	if f.Signature.Recv() == nil || len(f.Params) == 0 || len(c.Call.Args) == 0 || at.Parent() != c.Parent() || depth > 8 {
+		return false, ""
+	}
+	T, ok := derefNamed(f.Signature.Recv().Type())
+	if !ok {
+		return false, ""
+	}
+	st, ok := T.Underlying().(*types.Struct)
+	if !ok {
+		return false, ""
+	}
+	recvArg := c.Call.Args[0]
+	isErrField := func(fa *ssa.FieldAddr, k int) bool {
+		return fa.Field == k && structOfAddr(fa) == T
+	}
+	for k := 0; k < st.NumFields(); k++ {
+		if !types.Identical(st.Field(k).Type(), types.Universe.Lookup("error").Type()) {
+			continue
+		}
+		// sticky
+		sticky, nstores := true, 0
+		for _, fn := range w.AllFuncs {
+			eachInstr(fn, false, func(_ *ssa.Function, in ssa.Instruction) {
+				if s, ok := in.(*ssa.Store); ok {
+					if fa, ok := s.Addr.(*ssa.FieldAddr); ok && isErrField(fa, k) {
+						nstores++
+						if !w.nonNilByConstruction(s.Val, s.Block()) {
+							sticky = false
+						}
+					}
+				}
+			})
+		}
+		if !sticky || nstores == 0 {
+			continue
+		}
+		// a test of recv.field against nil: (block, successor taken when non-nil, when nil)
+		type fieldTest struct{ blk, nonNil, isNil *ssa.BasicBlock }
+		testsOf := func(fn *ssa.Function, base ssa.Value) []fieldTest {
+			var out []fieldTest
+			for _, b := range fn.Blocks {
+				ifi := blockIf(b)
+				if ifi == nil {
+					continue
+				}
+				cmp, neg := decodeCond(ifi.Cond)
+				if cmp == nil || cmp.Op != token.NEQ && cmp.Op != token.EQL {
+					continue
+				}
+				var other ssa.Value
+				if isNilConst(cmp.Y) {
+					other = cmp.X
+				} else if isNilConst(cmp.X) {
+					other = cmp.Y
+				} else {
+					continue
+				}
+				ld, ok := strip(other).(*ssa.UnOp)
+				if !ok || ld.Op != token.MUL {
+					continue
+				}
+				fa, ok := ld.X.(*ssa.FieldAddr)
+				if !ok || !isErrField(fa, k) || fa.X != base {
+					continue
+				}
+				ne := cmp.Op == token.NEQ
+				if neg {
+					ne = !ne
+				}
+				t := fieldTest{blk: b, nonNil: b.Succs[1], isNil: b.Succs[0]}
+				if ne {
+					t.nonNil, t.isNil = b.Succs[0], b.Succs[1]
+				}
+				out = append(out, t)
+			}
+			return out
+		}
+		// the method: nil only with the field set
+		okMethod := true
+		recv := ssa.Value(f.Params[0])
+		mtests := testsOf(f, recv)
+		for _, b := range f.Blocks {
+			ret, isRet := normalReturn(b)
+			if !isRet || len(ret.Results) == 0 {
+				continue
+			}
+			if ok, _ := e.nonNil(retVal(ret, 0), ret, depth+1); ok {
+				continue
+			}
+			set := false
+			for _, t := range mtests {
+				if len(t.nonNil.Preds) == 1 && (t.nonNil == b || t.nonNil.Dominates(b)) {
+					set = true
+				}
+			}
+			for _, d := range f.Blocks {
+				if d != b && !d.Dominates(b) {
+					continue
+				}
+				for _, in := range d.Instrs {
+					if s, ok := in.(*ssa.Store); ok {
+						if fa, ok := s.Addr.(*ssa.FieldAddr); ok && isErrField(fa, k) && fa.X == recv {
+							set = true // non-nil by construction (sticky)
+						}
+					}
+				}
+			}
+			if !set {
+				okMethod = false
+			}
+		}
+		if !okMethod {
+			continue
+		}
+		// the caller: tested after the call, `at` on the nil side; the receiver
+		// is not overwritten as a whole
+		caller := c.Parent()
+		whole := false
+		eachInstr(caller, false, func(_ *ssa.Function, in ssa.Instruction) {
+			if s, ok := in.(*ssa.Store); ok && s.Addr == recvArg && !(s.Block() != c.Block() && s.Block().Dominates(c.Block())) {
+				whole = true
+			}
+		})
+		if whole {
+			continue
+		}
+		for _, t := range testsOf(caller, recvArg) {
+			if !(t.blk == c.Block() || c.Block().Dominates(t.blk)) {
+				continue
+			}
+			if len(t.isNil.Preds) == 1 && (t.isNil == at.Block() || t.isNil.Dominates(at.Block())) {
+				return true, fmt.Sprintf("result of %s, which yields nil only after recording an error in %s.%s; that field never goes back to nil and was tested nil after the call (at %s)", f.Name(), T.Obj().Name(), st.Field(k).Name(), w.instrPos(t.blk.Instrs[len(t.blk.Instrs)-1]))
+			}
+		}
+	}
+	return false, ""
 }
